@@ -25,9 +25,10 @@ theorem takeSnapshot_hit (c : Cfg) (t : State) (x : Nat) (hrc : 0 < t.rcvdIdx) (
   simp [h1]
 
 /-- `_process_data` after the error check: the batch is returned, never the AssertionError. -/
-theorem SW_yield (c : Cfg) (s : State) (Z : List (Info × Nat)) (r : Res) (b d : Nat) (h : SWk c s Z none 1)
+theorem SW_yield (c : Cfg) (s : State) (Z : List (Info × Nat)) (r : Res) (b d : Nat) (hit : c.iterable = true)
+    (h : SWk c s Z none 1)
     (hp : Pend c s d) : (yieldItem c s r b).2 = .item b ∧ SWk c (yieldItem c s r b).1 Z none 0 := by
-  rw [yieldItem_eq_tail]
+  rw [yieldItem_eq_tail, yieldTail_iter c _ b hit]
   have hge : ∀ z ∈ Z, s.rcvdIdx ≤ z.1.idx := by
     intro z hz
     apply IdxFrom_ge _ _ h.idx
@@ -43,7 +44,7 @@ theorem SW_yield (c : Cfg) (s : State) (Z : List (Info × Nat)) (r : Res) (b d :
     · intro z hz hf
       obtain ⟨x, hx⟩ := h.mfl z hz hf
       exact ⟨x, by rw [e5]; exact hkeep _ hx (hge z hz)⟩
-  unfold yieldTail
+  unfold yieldTailOld
   simp only
   by_cases hdue : c.interval ≠ 0 ∧ (s.numYielded + 1) % c.interval = 0
   · rw [if_pos hdue]
@@ -79,7 +80,7 @@ theorem SW_process (c : Cfg) (s : State) (Z : List (Info × Nat)) (r : Res) (d :
   cases r.kind with
   | data b =>
     simp only
-    obtain ⟨a1, a2⟩ := SW_yield c T Z' r b d h1 hp1
+    obtain ⟨a1, a2⟩ := SW_yield c T Z' r b d hit h1 hp1
     exact ⟨by rw [a1]; simp, Z', a2⟩
   | notice => exact ⟨by simp, Z', hle⟩
   | error => exact ⟨by simp, Z', hle⟩
